@@ -11,8 +11,11 @@ package c01
 
 import (
 	"context"
+	"crypto/sha256"
+	"encoding/binary"
 	"fmt"
 	"io"
+	"strings"
 	"sync"
 	"testing"
 	"time"
@@ -318,6 +321,36 @@ func expectSettings(remote, other *sectest.Key) []struct {
 	}{{"matching", remote.ID}, {"different", other.ID}, {"empty", ""}}
 }
 
+// aliasIDs: peer IDs that are NOT the ID derived from k's public key although the same key can be read
+// out of them: identity multihashes of other protobuf spellings of the key, the key inlined where the
+// derived ID hashes it, or hashed where the derived ID inlines it.
+func aliasIDs(k *sectest.Key) (out []struct {
+	kind string
+	id   peer.ID
+}) {
+	ident := func(b []byte) peer.ID {
+		return peer.ID(append(binary.AppendUvarint([]byte{0x00}, uint64(len(b))), b...))
+	}
+	add := func(kind string, id peer.ID) {
+		if id != k.ID {
+			out = append(out, struct {
+				kind string
+				id   peer.ID
+			}{"different/alias-" + kind, id})
+		}
+	}
+	canon := mustMarshalPub(k)
+	add("identity-of-key-with-unknown-field", ident(reencodePub(k, "unknown-field")))
+	add("identity-of-key-with-fields-reordered", ident(reencodePub(k, "reordered")))
+	if len(k.ID) > 2 && k.ID[0] == 0x00 {
+		h := sha256.Sum256(canon)
+		add("sha256-of-inlined-key", peer.ID(append([]byte{0x12, 0x20}, h[:]...)))
+	} else {
+		add("identity-of-hashed-key", ident(canon))
+	}
+	return
+}
+
 type state struct {
 	r    *run.R
 	t    *testing.T
@@ -355,6 +388,7 @@ func TestC01(t *testing.T) {
 	s.quicSharedSocket()
 	r.Require("honest_completed_both", 20)
 	r.Require("expect_mismatch_rejected", 20)
+	r.Require("expected_peer_alias_of_the_remote_key_rejected", 40)
 	r.Require("edits_applied", 500)
 	r.Require("edits_rejected_by_victim", 500)
 	r.Require("attacker_sessions_rejected", 10)
@@ -374,6 +408,16 @@ func (s *state) honestMatrix() {
 						cases = append(cases, &hsCase{ID: fmt.Sprintf("honest/%s/%s-%s/i=%s/r=%s", proto, ti, tr, ei.kind, er.kind), Proto: proto,
 							Init: mkSide(ki, ei.kind, ei.id), Resp: mkSide(kr, er.kind, er.id)})
 					}
+				}
+				// the expected peer is an ALIAS of the remote's key: an ID that is not the one derived from
+				// the key but from which (or from whose digest) the same key can be read
+				for _, al := range aliasIDs(kr) {
+					cases = append(cases, &hsCase{ID: fmt.Sprintf("honest/%s/%s-%s/i=%s/r=empty", proto, ti, tr, al.kind), Proto: proto,
+						Init: mkSide(ki, al.kind, al.id), Resp: mkSide(kr, "empty", "")})
+				}
+				for _, al := range aliasIDs(ki) {
+					cases = append(cases, &hsCase{ID: fmt.Sprintf("honest/%s/%s-%s/i=matching/r=%s", proto, ti, tr, al.kind), Proto: proto,
+						Init: mkSide(ki, "matching", kr.ID), Resp: mkSide(kr, al.kind, al.id)})
 				}
 				if proto == "noise" {
 					// check disabled on either side, with a wrong expectation
@@ -406,7 +450,10 @@ func (s *state) honestMatrix() {
 			s.r.Count("honest_completed_both", 1)
 			s.r.Nontrivial(c.ID)
 		}
-		mism := (c.Init.ExpectKind == "different" && !c.Init.DisableCheck) || (c.Resp.ExpectKind == "different" && !c.Resp.DisableCheck)
+		mism := (strings.HasPrefix(c.Init.ExpectKind, "different") && !c.Init.DisableCheck) || (strings.HasPrefix(c.Resp.ExpectKind, "different") && !c.Resp.DisableCheck)
+		if mism && (strings.Contains(c.Init.ExpectKind, "alias") || strings.Contains(c.Resp.ExpectKind, "alias")) && (!res.Init.OK || !res.Resp.OK) {
+			s.r.Count("expected_peer_alias_of_the_remote_key_rejected", 1)
+		}
 		if mism && (!res.Init.OK || !res.Resp.OK || !res.Init.EchoOK) {
 			s.r.Count("expect_mismatch_rejected", 1)
 			s.r.Nontrivial(c.ID)
